@@ -20,8 +20,8 @@ import (
 func init() { checks["C17"] = checkC17 }
 
 const (
-	c17Tol    = 1e-9  // x scale: position tolerance for every constructed / on-curve point
-	c17TolEnd = 0 // "exactly": the end control points themselves (a closed curve must end bit-exactly where it starts, or the polygon has a gap)
+	c17Tol    = 1e-9 // x scale: position tolerance for every constructed / on-curve point
+	c17TolEnd = 0    // "exactly": the end control points themselves (a closed curve must end bit-exactly where it starts, or the polygon has a gap)
 )
 
 // c17RunPoly drives the real polygon builder.
